@@ -272,6 +272,19 @@ impl C11 {
 				(Err(_), Err(_)) => {}
 			}
 		}
+		// the top-level entry points (no limits can be set on them, so only on reference encodings)
+		if !out.failed() && !single && matches!(scn.gen_kind.as_str(), "ref" | "ref-blocks") && scn.bytes.len() <= 4096 {
+			let top_slice = crate::tls::with_ctx_pub(&env, &scn.schema, scn.target, || serde_avro_fast::from_datum_slice::<crate::tls::ViaTls>(&scn.bytes, &schema)).map(|v| v.0).map_err(|e| e.to_string());
+			let mut src = crate::simio::SimSource::new(&scn.bytes, RefillPlan::Fixed(1 + (scn.bytes.len() % 7)));
+			let top_reader = crate::tls::with_ctx_pub(&env, &scn.schema, scn.target, || serde_avro_fast::from_datum_reader::<_, crate::tls::ViaTls>(&mut src, &schema)).map(|v| v.0).map_err(|e| e.to_string());
+			out.evals += 2;
+			out.count("top_level_from_datum_entry_points", 1);
+			if top_slice.is_ok() != slice_out.res.is_ok() || top_reader.is_ok() != slice_out.res.is_ok() || (slice_out.res.is_ok() && (top_slice.as_ref().ok() != slice_out.res.as_ref().ok() || top_reader.as_ref().ok() != slice_out.res.as_ref().ok())) {
+				out.fail("C11:datum:top-level-entry-points-disagree", format!("from_datum_slice: {top_slice:?}; from_datum_reader: {top_reader:?}; DeserializerState over the slice: {:?}", slice_out.res));
+			} else if top_reader.is_ok() && src.position() != slice_out.consumed {
+				out.fail("C11:datum:consumed-differs", format!("from_datum_reader consumed {}, the slice path {}", src.position(), slice_out.consumed));
+			}
+		}
 		out.count(if slice_out.res.is_ok() { "inputs_decoding_ok" } else { "inputs_decoding_err" }, 1);
 		out.digest = digest.get();
 	}
@@ -354,7 +367,7 @@ impl Prop for C11 {
 		]
 	}
 	fn expected_probes(&self) -> Vec<&'static str> {
-		vec!["boundary_in_int_varint", "boundary_in_long_varint", "boundary_in_len_prefix", "boundary_in_payload", "boundary_in_float", "boundary_in_double", "boundary_in_fixed", "boundary_in_union_index", "boundary_in_enum_index", "boundary_in_block_count", "boundary_in_block_size", "boundary_in_duration", "boundary_in_bigdecimal_inner", "boundary_in_single_object_header", "reader_bytewise_or_scratch_path", "container_reads", "container_damaged_reads"]
+		vec!["boundary_in_int_varint", "boundary_in_long_varint", "boundary_in_len_prefix", "boundary_in_payload", "boundary_in_float", "boundary_in_double", "boundary_in_fixed", "boundary_in_union_index", "boundary_in_enum_index", "boundary_in_block_count", "boundary_in_block_size", "boundary_in_duration", "boundary_in_bigdecimal_inner", "boundary_in_single_object_header", "reader_bytewise_or_scratch_path", "container_reads", "container_damaged_reads", "top_level_from_datum_entry_points"]
 	}
 	fn budget(&self, tier: Tier) -> (u64, u64) {
 		match tier {
